@@ -331,8 +331,9 @@ struct Read {
 
 struct Outcome {
     reads: Vec<Read>,
-    /// (participant index, from_ns, to_ns, cause)
-    quiet: Vec<(usize, i64, i64, &'static str)>,
+    /// (participant index, from_ns, to_ns, kinds of the steps that un-matched this participant's
+    /// formerly matched readers)
+    quiet: Vec<(usize, i64, i64, BTreeSet<&'static str>)>,
     op_errors: Vec<String>,
     end_ns: i64,
 }
@@ -425,7 +426,8 @@ async fn scenario(w: World, n_parts: usize, steps: Vec<Step>) -> Outcome {
         op_errors: Vec::new(),
         end_ns: 0,
     };
-    let mut open: Vec<Option<(i64, &'static str)>> = vec![None; n_parts + 1];
+    let mut open: Vec<Option<(i64, BTreeSet<&'static str>)>> = vec![None; n_parts + 1];
+    let mut unmatch_cause: Vec<Option<&'static str>> = Vec::new();
     let mut seq = 0u32;
 
     for (si, step) in steps.iter().enumerate() {
@@ -551,7 +553,17 @@ async fn scenario(w: World, n_parts: usize, steps: Vec<Step>) -> Outcome {
             if let Err(e) = res {
                 out.op_errors.push(format!("{}: {e}", op.describe()));
             }
+            let was: Vec<bool> = model.eps.iter().map(|e| model.matched(e)).collect();
             model.apply(op);
+            unmatch_cause.resize(model.eps.len(), None);
+            for (i, e) in model.eps.iter().enumerate() {
+                let is = model.matched(e);
+                if was.get(i).copied().unwrap_or(false) && !is {
+                    unmatch_cause[i] = Some(step.cause);
+                } else if is {
+                    unmatch_cause[i] = None;
+                }
+            }
             // traffic bookkeeping (writer observer only)
             let quiet_from = match op {
                 Op::Lease { .. } => t_op + LEASE + LEASE_MARGIN,
@@ -560,7 +572,14 @@ async fn scenario(w: World, n_parts: usize, steps: Vec<Step>) -> Outcome {
             for p in 1..=n_parts {
                 let now_n = model.matched_readers_on(p);
                 if before[p] > 0 && now_n == 0 {
-                    open[p] = Some((quiet_from, step.cause));
+                    let causes: BTreeSet<&'static str> = model
+                        .eps
+                        .iter()
+                        .enumerate()
+                        .filter(|(_, e)| e.is_reader && e.part == p)
+                        .filter_map(|(i, _)| unmatch_cause[i])
+                        .collect();
+                    open[p] = Some((quiet_from, causes));
                 } else if now_n > 0 {
                     if let Some((from, cause)) = open[p].take() {
                         if from < t_op {
@@ -765,10 +784,17 @@ fn run_case(shard: &Shard, rep: &mut Report, case: u64, trace: bool) {
                     o.reads.iter().filter(|x| x.side == r.side).map(read_json).collect::<Vec<_>>(),
                 )
         };
+        // after the first divergence of a side its later reads carry the earlier defect along:
+        // they are not judged (keeps the cause attribution exact)
+        if diverged[r.side] {
+            prev[r.side] = (r.total, r.current);
+            continue;
+        }
         // change fields: difference since the previous read of this status (model free)
         let exp_cc = r.current - prev[r.side].1;
         let exp_tc = r.total - prev[r.side].0;
         if r.current_change != exp_cc || r.total_change != exp_tc {
+            diverged[r.side] = true;
             rep.violation(
                 format!("field=change|cause={}|side={}", r.cause, side),
                 format!(
@@ -779,9 +805,6 @@ fn run_case(shard: &Shard, rep: &mut Report, case: u64, trace: bool) {
             );
         }
         prev[r.side] = (r.total, r.current);
-        if diverged[r.side] {
-            continue;
-        }
         if r.current != r.model_cur {
             diverged[r.side] = true;
             rep.violation(
@@ -814,7 +837,14 @@ fn run_case(shard: &Shard, rep: &mut Report, case: u64, trace: bool) {
     let log = net.take_sent_log();
     rep.stat("datagrams_logged", log.len() as i128);
     rep.stat("quiet_intervals_observed", o.quiet.len() as i128);
-    for (p, from, to, cause) in &o.quiet {
+    for (p, from, to, causes) in &o.quiet {
+        if causes.len() != 1 {
+            // readers of this participant were un-matched by steps of different kinds: traffic
+            // could not be attributed to one of them
+            rep.stat("quiet_intervals_with_mixed_causes(not judged)", 1);
+            continue;
+        }
+        let cause = causes.iter().next().unwrap();
         rep.stat("quiet_interval_seconds", ((to - from) / SEC) as i128);
         let offending: Vec<&SentRecord> = log
             .iter()
